@@ -33,6 +33,29 @@ def run(tier, wd):
     for c, r in rows3:
         c["ti"] += off3
     rows = rows + rows3
+    # the same help requests on ONE application object that served other requests before (commands that declare nothing can be
+    # Run again): the request itself first, then the help of the sibling at every level, then the request again
+    dtb = T.deep_tree(bare=True)
+    trs4, rows4 = tc.run_tree(rep, wd, binpath, alphabet, 1, ["continue"], "%s-deepbare" % PROP.lower(), trees=[dtb])
+    chain = ["p1", "p2", "p3", "p4", "p5"]
+    sib_help = [chain[:k - 1] + ["q%d" % k, "--help"] for k in range(1, 6)]
+    again = [c for c, r in rows4 if c["kind"] == "help" and not c["unclaimed"] and not r.get("skipped")]
+    res4 = core.run_harness(binpath, "tree", [T.harness_case(dtb, c["policy"], c["argv"], [c["argv"]] + sib_help) for c in again], wd)
+    for c, r in zip(again, res4):
+        rep.cov["evaluations"] += 1
+        if r.get("skipped"):
+            continue
+        js = [j for j in T.judge(c, r) if j[0] in CLAUSES]
+        if js:
+            o = tc.replay_obj([dtb], c)
+            o["harness_case"] = T.harness_case(dtb, c["policy"], c["argv"], [c["argv"]] + sib_help)
+            rep.violation("after earlier help requests on the same application: " + tc.describe([dtb], c) + ": " + "; ".join(t for _, t in js), o)
+    rep.cov["rerun_cases"] = len(again)
+    off4 = len(trs)
+    trs = trs + trs4
+    for c, r in rows4:
+        c["ti"] += off4
+    rows = rows + rows4
     kinds = {}
     nontriv = unclaimed = 0
     for c, r in rows:
